@@ -10,8 +10,9 @@
    except the two same-width copies: see wchar_copy_ignores_mode_refuted).
    `can_show tg sub t`: the target can represent the value of token t (always for UTF-32 and
    ST::string targets, for UTF-16/UTF-32 sources, and for Latin-1 with the flag set).      *)
-From Coq Require Import NArith List Bool.
+From Coq Require Import NArith ZArith List Bool.
 From ST Require Import Base.Outcome Base.Units Utf.Spec Utf.Tokens Utf.Model Utf.ProofsGeneric Utf.ProofsC01 Utf.ProofsC02 Utf.ApiCoverage.
+From ST Require Utf.LeafBridge Gen.Leaf.
 Import ListNotations.
 Local Open Scope N_scope.
 
@@ -140,3 +141,18 @@ Proof. exact c02_nonvacuous. Qed.
 Theorem every_route_is_modelled : ST.Utf.ApiCoverage.routes_covered_b = true.
 Proof. exact ST.Utf.ApiCoverage.routes_covered. Qed.
 Print Assumptions every_route_is_modelled.
+
+(* ---- tie by translation: the leaf functions below are translated from the clang AST of the CURRENT headers into
+   Gen/Leaf.v on every run (tools/leaf_translate.py: C++ integer semantics written out over Z); the hand-written
+   model functions used by every theorem above compute the same values, so an edit to one of these functions in the
+   headers breaks this obligation whatever the test generators do ---- *)
+Theorem error_marks_match_source : forall e, In e ST.Utf.LeafBridge.enumerators ->
+  ST.Gen.Leaf.src_error_char (Z.of_N (cerr_code e)) = Z.of_N (error_char e) /\
+  ST.Gen.Leaf.src_char_error (Z.of_N (error_char e)) = Z.of_N (cerr_code (char_error (error_char e))) /\
+  char_error (error_char e) = e.
+Proof. exact ST.Utf.LeafBridge.error_char_matches_source. Qed.
+Print Assumptions error_marks_match_source.
+Theorem characters_carry_no_error_mark : forall ch, ch < 2 ^ 22 ->
+  ST.Gen.Leaf.src_char_error (Z.of_N ch) = 0%Z /\ char_error ch = CSuccess.
+Proof. exact ST.Utf.LeafBridge.char_error_matches_source_on_characters. Qed.
+Print Assumptions characters_carry_no_error_mark.
